@@ -14,7 +14,7 @@ check("C05", "dsu", "model_checking",
       "DESIGN.md §4 C05")
 
 check("C01", "seg", "model_checking",
-      "Breadth-first search over the real Segtree's own node array (hook verif_nodes) with a plain-array model in lockstep. To CLOSURE (histories of any length over set/modify/ask/debug from all three constructors) for a finite non-commutative algebra (words over {0,1} with the four non-commuting functions as modifiers), a second one over Z3, a lazy item with a data-less modifier (M = ()), Sum<Z3>, Min/Max<u8>, SumAdd<Z4>, an arithmetic-progression item whose push gives the two children DIFFERENT modifiers (the right child's is offset by the left child's length), a Combinator of two NON-commutative parts, nested Combinators, and 27 'Pair' algebras (every built-in item of the crate in both positions of a Combinator with an INDEPENDENT non-commutative harness item that receives the same modifiers through a fixed translation, so modifiers that cancel in one part stay pending in the other), for every n <= 6 (quick) / 7 (thorough). Bounded depth: the free algebra (decides 'every lawful item type', see DESIGN) n <= 9, the i64 built-ins and their Combinator nestings, elements at i64::MAX / i64::MIN, Min/Max over records compared by key only, and every algebra again with elements that carry a stale pending modifier (read back from another tree). Plus a size sweep: directed histories on the free algebra for every n <= 40 (130) and the neighbours of every power of two up to 1025 (4097).",
+      "Breadth-first search over the real Segtree's own node array (hook verif_nodes) with a plain-array model in lockstep. To CLOSURE (histories of any length over set/modify/ask/debug from all three constructors) for a finite non-commutative algebra (words over {0,1} with the four non-commuting functions as modifiers), a second one over Z3, a lazy item with a data-less modifier (M = ()), Sum<Z3>, Min/Max<u8>, SumAdd<Z4>, an arithmetic-progression item whose push gives the two children DIFFERENT modifiers (the right child's is offset by the left child's length), a Combinator of two NON-commutative parts, nested Combinators, and 27 'Pair' algebras (every built-in item of the crate in both positions of a Combinator with an INDEPENDENT non-commutative harness item that receives the same modifiers through a fixed translation, so modifiers that cancel in one part stay pending in the other); harness items and modifiers implement the std traits a library could start to require, with a NON-identity M::default() inside every alphabet, a zero-sized struct modifier, and elements / modifiers at the sentinel values of the type, for every n <= 6 (quick) / 7 (thorough). Bounded depth: the free algebra (decides 'every lawful item type', see DESIGN) n <= 9, the i64 built-ins and their Combinator nestings, elements at i64::MAX / i64::MIN, Min/Max over records compared by key only, and every algebra again with elements that carry a stale pending modifier (read back from another tree). Plus a size sweep: directed histories on the free algebra for every n <= 40 (130) and the neighbours of every power of two up to 1025 (4097).",
       "Trusted: the harness item algebras satisfy the monoid-action laws; the free-algebra homomorphism argument of DESIGN §4 C01. Bounded: n above the closed sizes; depth for the unbounded-value algebras.",
       "explicit-state BFS to closure over the implementation's node array, lockstep plain-array reference model",
       "DESIGN.md §4 C01")
@@ -39,27 +39,27 @@ check("C10", "geometry", "exploration",
       "exhaustive enumeration of exact-rational configurations with integer-arithmetic oracle",
       "DESIGN.md §4 C10")
 check("C11", "gcd", "exploration",
-      "gcd/lcm for all pairs |a|,|b| <= 300 on all 12 integer types (all i8/u8 pairs) and all pairs of 156 boundary magnitudes up to the type maxima; egcd on the full cube |a|,|b|,|c| <= 40 (quick) / 80 (thorough) minus a=b=0 on i32/i64/i128 plus boundary triples up to 2^20; crt for all moduli 1..=64 (128) with all reduced residues plus boundary modulus pairs up to 2^20; thorough adds all u16 and i16 pairs. The same enumeration runs a second time in a build with debug assertions and overflow checks.",
+      "gcd/lcm for all pairs |a|,|b| <= 300 on all 12 integer types (all i8/u8 pairs) and all pairs of 156 boundary magnitudes up to the type maxima; egcd on the full cube |a|,|b|,|c| <= 40 (quick) / 80 (thorough) minus a=b=0 on i32/i64/i128 plus boundary triples up to 2^20; crt for all moduli 1..=64 (128) with all reduced residues plus boundary modulus pairs up to 2^20; thorough adds all u16 and i16 pairs. The same enumeration runs a second time in a build with debug assertions and overflow checks. A call that does not return is a violation (heartbeat per worker thread, observation-counting monitor, replay under the same limit).",
       "Trusted: table/Stein reference gcd, exact i128 verification of a*x+b*y=c and of the CRT answer. Out-of-domain (results that do not fit the type, lcm(0,0), egcd(0,0,c)) skipped and counted.",
       "exhaustive small-scope input enumeration against a number-theoretic reference, two build profiles",
       "DESIGN.md §4 C11")
 check("C12", "bitset", "model_checking",
-      "Closure BFS of the real Bitset<N> for N = 1, 2, 3 (thorough: also 10) over set/remove/flip at the word-boundary positions, clear, complement, clone, clone_from and a 'touch a bitset of another capacity' action, and for N = 64, 65, 130 over a reduced alphabet around the 4096-bit boundary, with test(i) for every i, count, iter_bits, ==, Display and Debug judged after every transition, and in every distinct state the iterator protocol of iter_bits (nth / skip / step_by / take / last / count / fold / size_hint from every partly consumed position around word boundaries, behaviour after exhaustion) against the same adaptors on the model's index list; every pass starts on threads that first used bitsets of every other capacity (ascending and descending order), recorded in the replay; a bounded sweep with set/remove/flip at EVERY index; and & | ^ and their assigning forms on all ordered pairs (same object on both sides included) of the first 1500 reached sets per N.",
+      "Closure BFS of the real Bitset<N> for N = 1, 2, 3 (thorough: also 10) over set/remove/flip at the word-boundary positions, clear, complement, clone, clone_from and a 'touch a bitset of another capacity' action, and for N = 64, 65, 130 over a reduced alphabet around the 4096-bit boundary, with test(i) for every i, count, iter_bits, ==, Display and Debug judged after every transition, and in every distinct state the iterator protocol of iter_bits (nth / skip / step_by / take / last / count / fold / size_hint from every partly consumed position around word boundaries, behaviour after exhaustion) against the same adaptors on the model's index list (closure-taking methods first, with a closure that panics after 4(64N+2) calls, so a method that never stops is a verdict without a clock); == and != on all ordered pairs of reached patterns and of a directed family (same bit offset in 2-4 words); every entry into the library is an observed section, a call that does not return becomes a violation; the whole tier runs a second time in a build with debug assertions and overflow checks; every pass starts on threads that first used bitsets of every other capacity (ascending and descending order), recorded in the replay; a bounded sweep with set/remove/flip at EVERY index; and & | ^ and their assigning forms on all ordered pairs (same object on both sides included) of the first 1500 reached sets per N.",
       "Trusted: Vec<bool> model. Bounded: positions outside the boundary alphabet are reached only by the depth-bounded sweep; operand pairs capped at 1500 states per N (reported).",
       "explicit-state BFS to closure with lockstep set model, exhaustive operand pairs",
       "DESIGN.md §4 C12")
 check("C13", "sieve", "exploration",
-      "For EVERY limit N in 0..=1500 (quick) / 0..=4096 (thorough) a Sieve::new(N) built on a thread of its own — as the first construction of that thread, and inside four construction schedules on one thread (ascending, descending, largest first, alternating) so that state surviving between constructions shows — is compared for every n <= N (is_prime, min_prime, primes(), factorize) with trial division, plus N = 10^6 and 10^7 (thorough: 2^25) element by element, factorize included, against an independent Eratosthenes sieve; the whole check runs a second time in a build with overflow checks.",
+      "For EVERY limit N in 0..=1500 (quick) / 0..=4096 (thorough) a Sieve::new(N) built on a thread of its own — as the first construction of that thread, and inside four construction schedules on one thread (ascending, descending, largest first, alternating) so that state surviving between constructions shows — (and its factorize iterator under every std way of consuming: fold, count, last, nth, skip, step_by, collect into sets, ... on a fresh iterator and after j next() calls, under a CPU-time watchdog) is compared for every n <= N (is_prime, min_prime, primes(), factorize) with trial division, plus N = 10^6 and 10^7 (thorough: 2^25) element by element, factorize included, against an independent Eratosthenes sieve; the whole check runs a second time in a build with overflow checks.",
       "Trusted: trial-division and Eratosthenes references (cross-checked against each other and against known prime counts).",
       "exhaustive enumeration of all limits and all arguments up to the bound",
       "DESIGN.md §4 C13")
 check("C14", "rand", "exploration",
-      "gen_from_u64 called directly with an adversarial raw alphabet for every (start,end) of all five range forms of i8/u8 and boundary ranges of the wider types (in-range and reachability), a grid of finite f64 ranges x 2273 raw values (start <= x < end), determinism over 66k seeds (dense, boundary and 903 structured 64-bit seeds: single bits, shifted small multipliers, low / high masks, top bytes, patterns), shuffle over 216000 enumerated seeds plus 110879 structured ones (permutation and reachability) (permutation, every order of <= 6 elements reached, counts within [mean/2, 2*mean]), and absence of any period <= max(n, 1024) in streams drawn through EVERY range form of every integer type over value sets of up to 2^16 values (full-width forms of the 8- and 16-bit types included), from dense seeds and from the structured seeds, exact period search.",
+      "gen_from_u64 called directly with an adversarial raw alphabet for every (start,end) of all five range forms of i8/u8 and boundary ranges of the wider types (in-range and reachability), a grid of finite f64 ranges x 2273 raw values (start <= x < end), determinism over 66k seeds (dense, boundary and 903 structured 64-bit seeds: single bits, shifted small multipliers, low / high masks, top bytes, patterns), shuffle over 216000 enumerated seeds plus 110879 structured ones (permutation and reachability) (permutation, every order of <= 6 elements reached, counts within [mean/2, 2*mean]), and absence of any period <= max(n, 1024) in streams drawn through EVERY range form of every integer type over value sets of up to 2^16 values (full-width forms of the 8- and 16-bit types included), from dense seeds and from the structured seeds, exact period search. The whole enumeration runs a second time in a build with overflow checks (empty ranges skipped before the call).",
       "Trusted: the deterministic count criteria stand in for 'near-equal frequency' and 'not periodic'; signed `..b` with b <= 0 is treated as an empty (out-of-domain) range as in the crate's tests.",
-      "exhaustive enumeration of ranges x raw outputs and of seeds, deterministic count criteria",
+      "exhaustive enumeration of ranges x raw outputs and of seeds, deterministic count criteria, two build profiles",
       "DESIGN.md §4 C14")
 check("C15", "iter", "exploration",
-      "Every mask of u8/i8/u16/i16 in both directions against the definition (order, membership, exact count, terminal element), bounded-popcount masks over boundary bit positions for the 32/64/128-bit and size types, every word over a 3-letter alphabet up to length 6 (7) and every permutation of <= 7 (8) elements for next_permutation / iter_permutations, and every grid up to 6x6 with every cell for the three neighbour iterators.",
+      "Every mask of u8/i8/u16/i16 in both directions against the definition (order, membership, exact count, terminal element), bounded-popcount masks over boundary bit positions for the 32/64/128-bit and size types, every word over a 3-letter alphabet up to length 6 (7) and every permutation of <= 7 (8) elements for next_permutation / iter_permutations, and every grid up to 6x6 with every cell for the three neighbour iterators; for every one of these iterators (negative masks and multisets with repeats included) every std way of consuming (next to the end and beyond, size_hint, fold, for_each, count, last, sum, product, min, max, reduce, nth, skip, step_by, take + rest, all/any/find/position, collecting into Vec and sets, zip/chain/peekable/fuse; fresh and after j next() calls) against the same adaptor on the reference sequence, under a CPU-time watchdog that turns a non-returning call into a violation.",
       "Trusted: definitional references; the neighbour order oracle is the offset order shown in the crate's own tests.",
       "exhaustive input enumeration against definitional references",
       "DESIGN.md §4 C15")
@@ -69,35 +69,35 @@ check("C18", "f80", "exploration",
       "exhaustive pair enumeration over a boundary set and second-level chains against an exact soft-float reference",
       "DESIGN.md §4 C18")
 check("C19", "tensor", "exploration",
-      "All 340 (quick) / 780 (thorough) shapes of rank 1..4 with extents up to 4 / 5: every valid index (row-major offset, bijection, iteration order, single-element writes), every index out of range in exactly one dimension must panic for Index/IndexMut/get_index (incl. those whose flat offset stays inside the storage), constructors (new, from_vec, from_slice, read) reject zero extents and wrong lengths, write/read round trip through the real Writer/Reader, equality over all pairs of same-rank shapes with equal data, and clone() / clone_from() over all ordered pairs of same-rank shapes with the copy examined like a constructed tensor.",
+      "All 340 (quick) / 780 (thorough) shapes of rank 1..4 with extents up to 4 / 5: every valid index (row-major offset, bijection, iteration order, single-element writes), every index out of range in exactly one dimension must panic for Index/IndexMut/get_index (incl. those whose flat offset stays inside the storage), constructors (new, from_vec, from_slice, read) reject zero extents and wrong lengths, write/read round trip through the real Writer/Reader (i32, u64, u128, i128 with every decimal digit structure, String), equality over all pairs of same-rank shapes with equal data, and clone() / clone_from() over all ordered pairs of same-rank shapes with the copy examined like a constructed tensor.",
       "Trusted: odometer reference for row-major order; the separator format oracle is the crate's own `output` test.",
       "exhaustive enumeration of shapes and indices",
       "DESIGN.md §4 C19")
 check("C20", "lambda", "exploration",
-      "Enumerates PROGRAMS: all macro shapes (31 capture patterns x 1..4 arguments x return type or none x both call syntaxes) with body template A, plus template D (a recursive call nested as an argument of a recursive call, and block arguments that mutate the captured state) for argument counts 1 and 4 template T (arguments of reference, slice, &mut, owned and bool types in every position), template E (26 classes of argument expressions whose type only the parameter fixes: literal-only expressions beyond i32 for every integer type, float literals, Default::default(), .into(), parse, collect, None, untyped closures) and template N (identifier collisions: the recursion name equal to an argument, capture, local, loop variable or std name; names equal to the macro's internal identifiers) — 2201 programs in quick, 11738 in thorough — are generated as Rust source, compiled against /repo's macro in two builds (without and with debug assertions / overflow checks, because cfg(debug_assertions) inside the macro is decided in the invoking crate), and run on one thread of one process against the equivalent hand-written recursive fn on a grid of arguments, the closure created once and called four times with data mutated, dropped and recreated in between; a shape that fails to compile or differs in result or captured state is a violation.",
+      "Enumerates PROGRAMS: all macro shapes (31 capture patterns x 1..4 arguments x return type or none x both call syntaxes) with body template A, plus template D (a recursive call nested as an argument of a recursive call, and block arguments that mutate the captured state) for argument counts 1 and 4 template T (arguments of reference, slice, &mut, owned and bool types in every position), template K (27 + 20 declared capture-type classes at every capture position: containers, unsized, impl Trait, dyn Trait, references inside, non-Send/Sync, boxed closures, a rec_lambda closure as capture), template X (execution environments, each version in a child process: 1.7 M levels of recursion on a 1 GiB caller stack, four threads with own / shared closures, a closure moved to another thread, nesting), template E (26 classes of argument expressions whose type only the parameter fixes: literal-only expressions beyond i32 for every integer type, float literals, Default::default(), .into(), parse, collect, None, untyped closures) and template N (identifier collisions: the recursion name equal to an argument, capture, local, loop variable or std name; names equal to the macro's internal identifiers) — 2331 programs in quick, about 12000 in thorough — are generated as Rust source, compiled against /repo's macro in two builds (without and with debug assertions / overflow checks, because cfg(debug_assertions) inside the macro is decided in the invoking crate), and run on one thread of one process against the equivalent hand-written recursive fn on a grid of arguments, the closure created once and called four times with data mutated, dropped and recreated in between; a shape that fails to compile or differs in result or captured state is a violation.",
       "Trusted: the generator emits the same body text for both versions; rustc/cargo. Bounded: at most 4 captures and 4 arguments.",
       "exhaustive enumeration of macro invocation shapes, compiled and executed",
       "DESIGN.md §4 C20")
 
 check("C17", "c17", "model_checking",
-      "Two passes over the same 2-3 thread harness (each thread creates k nodes through from_item/insert_at and merges, splits, removes and collects on a treap it owns, then merges and splits three nodes with hand-set EQUAL priorities, then prints both treaps with {:?} and TreePrinter; a panic inside a thread's operations is a result). loom pass: every source file of the treap crate, copied at build time with thread_local!/std::sync/std::thread/statics rerouted to loom, explored under DPOR with preemption bound 2 (quick) / 3 and 3 threads (thorough), once with the main thread drawing a priority before spawning and once 'cold' (the threads' first creations are the first of the process); every unserialised outcome (per-thread priority streams + treap results) must be among the outcomes of the same bodies run with every operation under one lock, treap results and tie shapes must equal the solo run, and the renderings must equal those made again after all threads were joined; results that can be judged per execution end the exploration at the first bad one, and each exploration has a wall-time cap (reported). Miri pass: the same bodies free-running on real threads against the real crate; its vector-clock detector reports unsynchronised accesses (static mut, raw cells, Relaxed hand-made locks) that the cooperative scheduler cannot see.",
+      "Two passes over the same 2-3 thread harness (each thread creates k nodes through from_item/insert_at and merges, splits, removes and collects on a treap it owns, then merges and splits three nodes with hand-set EQUAL priorities, then prints both treaps with {:?} and TreePrinter; a panic inside a thread's operations is a result). loom pass: every source file of the treap crate, copied at build time with thread_local!/std::sync/std::thread/statics rerouted to loom, explored under DPOR with preemption bound 2 (quick) / 3 and 3 threads (thorough), once with the main thread drawing a priority before spawning and once 'cold' (the threads' first creations are the first of the process); every unserialised outcome (per-thread priority streams + treap results) must be among the outcomes of the same bodies run with every operation under one lock, treap results and tie shapes must equal the solo run, and the renderings must equal those made again after all threads were joined; results that can be judged per execution end the exploration at the first bad one, and each exploration has a wall-time cap (reported). Miri pass: the same bodies free-running on real threads against the real crate; its vector-clock detector reports unsynchronised accesses (static mut, raw cells, Relaxed hand-made locks) and uses after free that the cooperative scheduler cannot see; with 2 and 9 threads (thorough up to 33), the larger configurations with a rendezvous after each thread's first node creation. The loom pass runs in two builds (optimised; debug assertions + overflow checks) and has a third exploration on hand-built path-shaped treaps of 70 (150) nodes per thread.",
       "Trusted: loom's model of the rerouted primitives; Miri's race detector (one free-running execution per configuration, schedule-independent for unordered access pairs). State shared through something the rewrite does not know is detected (first draw differs between executions) and ends in exit 2, not a verdict. Limits of loom's own run time (thread-local destructors touching loom objects, spin loops without yield) are recognised; the verdict then rests on the Miri pass alone and the evidence says so.",
       "stateless schedule exploration of the real code under loom (DPOR, preemption-bounded) + free-running Miri race detection",
       "DESIGN.md §4 C17")
 
 check("C03", "treap", "model_checking",
-      "Breadth-first search over states of up to 3 live treaps with at most N nodes where the EXPLORER chooses every priority rank (strictly between or tied with the live levels, also for insert_at: for a rank strictly between levels the live priorities are re-spaced to the two ends of the u32 range so that whatever the crate draws lands at that rank; for a rank tied with a level the draw is predicted by a per-thread copy of the crate's generator and the level moved onto it), so every weak ordering of priorities = every tree shape is realised; before every non-creating action the lowest and highest live priority are stretched to 0 and u32::MAX. Every action (new, merge of every ordered pair, split_at, split_by with an id predicate AND with every value predicate that is prefix-monotone on the current sequence, insert_at, remove_at, a lazy add-1 or assign-0 attached at the root, first/last/collect/size/root, merge with empty; nodes created by New and insert_at also with a stale pending tag) in every reached state against vector models; invariants in every state: collect() on a copy = model, root aggregate = fold, every node's cached size and aggregate = its own subtree. Closure for N <= 4 (quick) / 5 (thorough), all histories to depth 6 for N = 5 / 6. Beyond N nodes a directed sweep (labelled non-exhaustive) over tall and large shapes: 12 shape families (paths, zigzag, caterpillars, combs, balanced and mixed) of up to 1025 (2049) nodes built by struct literals, four pending-tag layouts, every operation at every / boundary positions, merges of all ordered pairs over a size set with four priority relations, judged with the same invariants. The exploration and a reduced sweep run a second time in a build with debug assertions and overflow checks.",
+      "Breadth-first search over states of up to 3 live treaps with at most N nodes where the EXPLORER chooses every priority rank (strictly between or tied with the live levels, also for insert_at: for a rank strictly between levels the live priorities are re-spaced to the two ends of the u32 range so that whatever the crate draws lands at that rank; for a rank tied with a level the draw is predicted by a per-thread copy of the crate's generator and the level moved onto it), so every weak ordering of priorities = every tree shape is realised; before every non-creating action the lowest and highest live priority are stretched to 0 and u32::MAX. Every action (new, merge of every ordered pair, split_at, split_by with an id predicate AND with every value predicate that is prefix-monotone on the current sequence, insert_at, remove_at, a lazy add-1 or assign-0 attached at the root, and in parts of their own a POSITION-DEPENDENT modification (x_i -> x_i + 1 + i, whose push gives the two children different tags), first/last/collect/size/root, merge with empty; nodes created by New and insert_at also with a stale pending tag) in every reached state against vector models; invariants in every state: collect() on a copy = model, root aggregate = fold, every node's cached size and aggregate = its own subtree. Closure for N <= 4 (quick) / 5 (thorough), all histories to depth 6 for N = 5 / 6. Beyond N nodes a directed sweep (labelled non-exhaustive) over tall and large shapes: 12 shape families (paths, zigzag, caterpillars, combs, balanced and mixed) of up to 1025 (2049) nodes built by struct literals, four pending-tag layouts, every operation at every / boundary positions, merges of all ordered pairs over a size set with four priority relations, judged with the same invariants. The exploration and a reduced sweep run a second time in a build with debug assertions and overflow checks.",
       "Trusted: the harness item is a lawful TreapItem (value in Z3, size, word aggregate, affine pending tag); vector model. Bounded: more than N live nodes / 3 live treaps.",
       "explicit-state BFS to closure over the real treap with explorer-chosen priorities, lockstep vector models",
       "DESIGN.md §4 C03")
 check("C16", "treap", "model_checking",
-      "(a) Heap order along every parent-child edge, consistently in one direction, is an invariant checked in every state of the C03 exploration (every priority ordering incl. ties and the extreme values 0 / u32::MAX, closure for N <= 4, bounded depth above). (b) Height: a directed menu of deterministic histories through the REAL priority generator (1800 cases in quick), each in a process of its own at a stated stream offset and thread ordinal — single-treap orders (sorted appends and front insertion to 10^6 elements, middle / one-third insertion, rotations, append/remove alternation), block concatenation with a Treap::new() per block, k treaps filled round-robin for 17 values of k (every treap probed), sliding windows, fixed-length queues, node-free operations interleaved, regrowth after removals, and histories whose node creations are spread over threads: every thread ordinal 0..4095 of a process building a treap, chunks built on 2..512 (1024) short-lived threads under three thread-lifetime policies (each worker spawned after the previous was joined, all workers kept alive, three resident threads) and concatenated in three orders, nodes created round-robin by 2..32 live threads and merged at the back / front / middle — height probed at every doubling against 5*log2(n+1)+20. Labelled non-exhaustive.",
+      "(a) Heap order along every parent-child edge, consistently in one direction, is an invariant checked in every state of the C03 exploration (every priority ordering incl. ties and the extreme values 0 / u32::MAX, closure for N <= 4, bounded depth above). (b) Height: a directed menu of deterministic histories through the REAL priority generator (2139 cases in quick), each in a process of its own at a stated stream offset and thread ordinal — single-treap orders (sorted appends and front insertion to 10^6 elements, middle / one-third insertion, rotations, append/remove alternation), block concatenation with a Treap::new() per block, k treaps filled round-robin for 17 values of k (every treap probed), sliding windows, fixed-length queues, node-free operations interleaved, regrowth after removals, and histories whose node creations are spread over threads: every thread ordinal 0..4095 of a process building a treap, chunks built on 2..512 (1024) short-lived threads under three thread-lifetime policies (each worker spawned after the previous was joined, all workers kept alive, three resident threads) and four naming policies (unnamed, all workers the same name, distinct names, every second worker the common name) and concatenated in three orders, nodes created round-robin by 2..32 live threads and merged at the back / front / middle — height probed at every doubling against 5*log2(n+1)+20. Labelled non-exhaustive.",
       "Part (b) is an enumeration of a finite menu of deterministic executions, not of all histories; the probabilistic sentence of the property cannot be established by any bounded exploration and is used only to justify that a correct implementation never trips the bound on the menu.",
       "explicit-state BFS (heap-order invariant) + directed long histories for the height bound",
       "DESIGN.md §4 C16")
 
 check("C08", "reader", "fault_enumeration",
-      "Every execution is (input bytes, script of reader calls, delivery plan) where the harness's Read object owns every answer: for inputs up to 10 (quick) / 13 (thorough) bytes built from tokens x separators (CRLF, lone CR, blank lines, unterminated last line) ALL 2^(L-1) chunkings, plus every placement of one or two ErrorKind::Interrupted among the read calls for the shorter ones; for extreme values of all 12 integer types, tuples of arity 2..8 and multi-line text every placement of up to two deviations (short read / Interrupted) and byte-at-a-time delivery; for inputs as long as the observed internal buffer (65536) the interesting bytes (minus sign + digits, CR LF, whitespace run, end of input) at every offset around the boundary under 21 plans. Plus every byte string over {digit, space, CR, LF} up to length 7 (8) under all chunkings (CR runs before LF, at the end, between tokens) and CR runs around the buffer boundary. Scripts: typed token reads in several widths per token, String, char, tuples, read_vec, read_line xk, read_lines, is_eof interposed, mixed. Every delivery must return exactly what the default delivery of the same bytes returns (all inputs), and that common result must equal an independent reference parser of the whole byte string (inputs for which the property defines the answer).",
+      "Every execution is (input bytes, script of reader calls, delivery plan) where the harness's Read object owns every answer: for inputs up to 10 (quick) / 13 (thorough) bytes built from tokens x separators (CRLF, lone CR, blank lines, unterminated last line) ALL 2^(L-1) chunkings, plus every placement of one or two ErrorKind::Interrupted among the read calls for the shorter ones; for extreme values of all 12 integer types, tuples of arity 2..8 and multi-line text every placement of up to two deviations (short read / Interrupted) and byte-at-a-time delivery; for inputs as long as the observed internal buffer (65536) the interesting bytes (minus sign + digits, CR LF, whitespace run, end of input) at every offset around the boundary under 21 plans. Plus every byte string over {digit, space, CR, LF} up to length 7 (8) under all chunkings (CR runs before LF, at the end, between tokens) and CR runs around the buffer boundary; inputs of several buffers (a token or line of 1x..5x the buffer +-1 followed by up to two buffers of further lines) under 19 deliveries. Scripts: typed token reads in several widths per token, String, char, tuples, read_vec, read_line xk, read_lines, is_eof interposed, mixed. Every delivery must return exactly what the default delivery of the same bytes returns (all inputs), and that common result must equal an independent reference parser of the whole byte string (inputs for which the property defines the answer).",
       "Trusted: the reference parser (tokens = maximal non-whitespace runs; lines end at LF or CRLF; a lone CR belongs to the line — the last only used for the delivery-independence oracle). Not covered: non-ASCII input, error kinds other than Interrupted, scripts asking for tokens that are not there.",
       "deviation-bounded exhaustive enumeration of environment answers (all chunkings / all placements of <= 2 faults) on the real Reader",
       "DESIGN.md §4 C08")
@@ -108,7 +108,7 @@ check("C09", "writer", "model_checking",
       "DESIGN.md §4 C09")
 
 check("C04", "fft", "model_checking",
-      "The state of an FFT object that can influence a later call is the size of its twiddle / bit-reversal tables. ALL states 4..2^11 (quick) / 2^13 (thorough), each reached both by update_n and by a large multiply, x ALL calls of the alphabet: every length pair of 0..40 ∪ {63..65,127..129} (thorough 0..130 and around 2^8..2^10) x 12 coefficient pattern pairs x magnitudes {1, sqrt(Amax), Amax} on the envelope boundary, for f64 and f32; all vectors over {-A,-1,0,1,A} for lengths <= 4; envelope corners with long vectors up to 65536 x 65536 (transform size 2^17; thorough 2^19); all call histories of length <= 3 over an 8-call alphabet that includes a 70000-long multiply. Every call runs on a CLONE of the grown object and is judged against the schoolbook convolution (exact, i128 / parallel i64), against a fresh object, repeated on the same object, through multiply_into on a pre-filled destination (also one holding values beyond 2^53), and through fft x fft -> fft_inv / fft_inv_into (also at transform size 1).",
+      "The state of an FFT object that can influence a later call is the size of its twiddle / bit-reversal tables. ALL states 4..2^11 (quick) / 2^13 (thorough), each reached both by update_n and by a large multiply, x ALL calls of the alphabet: every length pair of 0..40 ∪ {63..65,127..129} (thorough 0..130 and around 2^8..2^10) x 12 coefficient pattern pairs x magnitudes {1, sqrt(Amax), Amax} on the envelope boundary, for f64 and f32; all vectors over {-A,-1,0,1,A} for lengths <= 4; envelope corners with long vectors up to 65536 x 65536 (transform size 2^17; thorough 2^19); all call histories of length <= 3 over an 8-call alphabet that includes a 70000-long multiply; every public constructor (new, Default, clones) and table sizes 1 and 2 as object states; operands passed as two views of ONE buffer (all pairs of windows: same slice, prefixes, suffixes, nested, overlapping, adjacent); histories of up to 3 calls that refill the caller's buffers in place between calls of every public method. Every call runs on a CLONE of the grown object and is judged against the schoolbook convolution (exact, i128 / parallel i64), against a fresh object, repeated on the same object, through multiply_into on a pre-filled destination (also one holding values beyond 2^53), and through fft x fft -> fft_inv / fft_inv_into (also at transform size 1).",
       "Envelope read as max|coef|^2 * max(len a, len b) <= 1e12 (f64) / 1e3 (f32): inside the property's formula and inside the crate's published table also for unequal lengths (see DESIGN §4 C04 for why min(len) was a false alarm). Coefficient vectors are boundary-magnitude families and a 5-letter alphabet, not all of Z^n (exhaustive: false).",
       "all object states x all calls of a finite alphabet, exact integer reference; bounded call histories",
       "DESIGN.md §4 C04")
